@@ -8,7 +8,8 @@ from vlib.core import cz, cnat, cbool, clist, cstr
 PROPS = ["Props/C16.v", "Props/C16src.v"]
 THEOREMS = ["C16_lengths_aligned", "C16_lengths_refuted_without_repair", "C16_robust_fit_total", "C16_ten_faults_refuted",
             "C16_rows_exhausted_refuted", "C16_init_training_terminates", "C16_init_training_unbounded", "C16_update_fallback",
-            "C16_retry_loop_is_source", "C16_drop_is_applied_to_all_three_is_source", "C16_init_retry_is_source", "C16_restart_is_source"]
+            "C16_retry_loop_is_source", "C16_drop_is_applied_to_all_three_is_source", "C16_init_retry_is_source", "C16_restart_is_source",
+            "C16_slice_sampler_after_drop_refuted"]
 TRANSLATORS = ["fitretry"]
 LEVEL = "proof"
 ALLOWED_AXIOMS = []
@@ -77,6 +78,21 @@ def c_onat(v):
 
 def c_attempt(a):
     return f"(mkA {cnat(a['nX'])} {cnat(a['nY'])} {c_s2(a['s2'])} {c_onat(a['tmp'])})"
+
+
+KNOWN_SLICE = "slice-sampler-after-drop"
+
+
+def violation_key(o, key, msg):
+    """stable key of a run-monitor hit.  The known finding (also listed under C09 as optmatrix:use_slice_sampler): with use_slice_sampler=True the
+    restart evaluates tmp_gp's objective after the drop step shrank tmp_gp.s2 but not tmp_gp.X / tmp_gp.y -> ValueError (broadcast)."""
+    if key != "abort":
+        return key
+    c = o["cfg"]
+    if (msg.startswith("ValueError") and "could not be broadcast" in msg and c.get("opts", {}).get("use_slice_sampler")
+            and c["mode"] != "det" and "_get_samples_from_slice_sampler_" in (o.get("tb") or "")):
+        return KNOWN_SLICE
+    return "abort:" + msg.split(":")[0]
 
 
 def sessions_of(out):
@@ -205,7 +221,7 @@ def tie(ctx, broken):
                 ctx.notes.append(f"run {c['name']} faults={c['faults']}: aborted by an exception unrelated to fit failures "
                                  f"(merged repeat returns an array; reported separately): {msg[:160]}")
                 continue
-            k = "abort:" + msg.split(":")[0] if key == "abort" else key
+            k = violation_key(o, key, msg)
             if k in reported:
                 continue
             reported.add(k)
@@ -293,6 +309,22 @@ def tie(ctx, broken):
             ctx.oblige("refutation-replay:" + tag, "correspondence", ok, obs.get(tag, "")[:200])
             if not ok:
                 broken.append(("refutation-replay:" + tag, f"the model's stuck state '{e}' no longer reproduces on the code: {obs.get(tag)}"))
+    # ---- the known finding, replayed on the real code on every run (backs C16_slice_sampler_after_drop_refuted)
+    bs = next((b for b in bases if b["cfg"]["mode"] == "spec"), None)
+    if bs is not None:
+        c = copy.deepcopy(bs["cfg"])
+        c.setdefault("opts", {})["use_slice_sampler"] = True
+        c.update(faults=[1, 2], upd_faults=[], upd_double=False, tag="witness:slice-sampler-after-drop")
+        o = F.run_faulted(c)
+        keys = [violation_key(o, k_, m_) for k_, m_ in o["violations"]]
+        okw = KNOWN_SLICE in keys
+        ctx.oblige("refutation-replay:" + KNOWN_SLICE, "correspondence", okw, str(o["exc"])[:200])
+        if okw:
+            ctx.violate(KNOWN_SLICE, f"specified-noise run (seed {c['seed']}, max_fun_evals {c['budget']}) with use_slice_sampler=True and LinAlgError injected "
+                        f"at fit invocations [1, 2]: {o['exc']}", dict(kind="faulted_run", cfg=c, traceback=(o["tb"] or "")[-700:]))
+        else:
+            broken.append(("refutation-replay:" + KNOWN_SLICE, "the witness of C16_slice_sampler_after_drop_refuted no longer aborts on the code "
+                           f"(repaired?): {o['exc'] or 'run completed'} — update known_findings.d/C16.json and the theorem"))
     ctx.coverage["observations"] = dict(
         outside_property_range=obs,
         note="10 consecutive faults in one refit -> UnboundLocalError (res unbound); 6 consecutive faults on the 5-row first refit -> "
@@ -403,9 +435,9 @@ def search(ctx, broken):
         ctx.coverage["aimed_search"] = dict(regions=sorted(regions), why=why[:400], runs=len(cfgs[:360]))
         for o in F.run_pool(cfgs[:360], procs=12):
             for key, msg in o["violations"]:
-                if key != "unrelated-crash":
+                if key != "unrelated-crash" and violation_key(o, key, msg) != KNOWN_SLICE:
                     c = o["cfg"]
-                    ctx.violate("abort:" + msg.split(":")[0] if key == "abort" else key,
+                    ctx.violate(violation_key(o, key, msg),
                                 f"{c['mode']} run (seed {c['seed']}, max_fun_evals {c['budget']}, options {c.get('opts', {})}) with LinAlgError injected at "
                                 f"fit invocations {c['faults']}: {msg}  [search aimed at: {sorted(regions)}] [source change: {why[:300]}]",
                                 dict(kind="faulted_run", cfg=c, traceback=(o["tb"] or "")[-700:]))
@@ -418,9 +450,9 @@ def search(ctx, broken):
         ctx.tier = old
     for o in F.run_pool(cfgs[:400], procs=12):
         for key, msg in o["violations"]:
-            if key != "unrelated-crash":
+            if key != "unrelated-crash" and violation_key(o, key, msg) != KNOWN_SLICE:
                 c = o["cfg"]
-                ctx.violate("abort:" + msg.split(":")[0] if key == "abort" else key,
+                ctx.violate(violation_key(o, key, msg),
                             f"{c['mode']} run with faults {c['faults']} / update faults {c['upd_faults']}: {msg}", dict(kind="faulted_run", cfg=c))
                 return True
     return False
@@ -437,6 +469,7 @@ def replay(ctx, rp):
     print("sessions:", o["sessions"])
     print("result:", o["result"], "exception:", o["exc"])
     bad = [v for v in o["violations"] if v[0] != "unrelated-crash"]
+    print("keys:", [violation_key(o, k_, m_) for k_, m_ in bad])
     print("replay:", bad or "property holds on this input now")
     if o["tb"]:
         print(o["tb"][-800:])
